@@ -201,13 +201,25 @@ func ruleTriggerDispatch(c *Ctx) {
 	ok := false
 	var pos ast.Node = s.Body
 	s.walk(func(n ast.Node) bool {
-		rs, isR := n.(*ast.RangeStmt)
-		if !isR || writesObj == nil || identObj(s.Info, rs.X) != writesObj || rs.Value == nil {
+		li := asLoop(s.Info, n)
+		if li == nil || li.Over == nil || writesObj == nil || identObj(s.Info, li.Over) != writesObj {
 			return true
 		}
-		val := identObj(s.Info, rs.Value)
+		if fs, isFor := n.(*ast.ForStmt); isFor {
+			// the indexed form must visit every element: i := 0; i < len(writes); i++
+			inc, isInc := fs.Post.(*ast.IncDecStmt)
+			as, isAs := fs.Init.(*ast.AssignStmt)
+			zero := false
+			if isAs && len(as.Rhs) == 1 {
+				v, isC := constInt(s.Info, as.Rhs[0])
+				zero = isC && v == 0
+			}
+			if !isInc || inc.Tok != token.INC || !zero {
+				return true
+			}
+		}
 
-		for _, st := range rs.Body.List {
+		for _, st := range li.Body.List {
 			es, isE := st.(*ast.ExprStmt)
 			if !isE {
 				continue
@@ -217,7 +229,7 @@ func ruleTriggerDispatch(c *Ctx) {
 				continue
 			}
 			if in, isIn := unparen(cx.Args[1]).(*ast.CallExpr); isIn && CalleeName(s.Info, in) == "(executor/wal.OffsetIndexBuffer).IndexAndPayload" {
-				if sel, isSel := unparen(in.Fun).(*ast.SelectorExpr); isSel && identObj(s.Info, sel.X) == val {
+				if sel, isSel := unparen(in.Fun).(*ast.SelectorExpr); isSel && li.isElem(s.Info, sel.X) {
 					ok = true
 					pos = cx
 				}
